@@ -149,21 +149,28 @@ def build(tier, seed):
              'Y1': '=OR(A1)', 'Y2': '=OR(A1,A2)', 'Y3': '=OR(A1,A2,A3)', 'Y4': '=OR(A1,A2,A3,A4)',
              'X1': '=AND(B1,A1:A3)', 'X2': '=OR(B1,A1:A3)', 'X3': '=AND(A1:A4)', 'X4': '=OR(A1:A2,A3:A4)', 'W1': '=NOT(A1)', 'W2': '=NOT(NOT(A1))'})
 
-    def h_andor(a: TV, b: TV, c: TV, d: TV, k: int) -> bool:
-        k = concretize(k, 1, 4)
-        vs = (a, b, c, d)
-        for i, v in enumerate(vs):
-            setv(MA, f'Sheet1!A{i + 1}', v)
-        used = [v for v in vs[:k] if v is not None]
-        if not used:
-            return True
-        ev = Evaluator(MA)
-        conj = all(truth(v) for v in used)
-        disj = any(truth(v) for v in used)
-        return bool_is(ev.evaluate(f'Sheet1!Z{k}'), conj) and bool_is(ev.evaluate(f'Sheet1!Y{k}'), disj)
-    add('AND-OR[scalars]', h_andor, lambda a, b, c, d, k: 1 <= k <= 4, [(True, 0, None, 5, 4), (None, None, 1, False, 3), (2, None, None, None, 1)],
-        '1..4 scalar arguments (count forked), each over bool/int/blank: conjunction / disjunction of the non-blank ones, numbers TRUE iff non-zero', 40,
-        lambda a, b, c, d, k: f'{k} arguments of {(a, b, c, d)!r}')
+    def mk_andor(k):
+        def body(vs):
+            for i, v in enumerate(vs):
+                setv(MA, f'Sheet1!A{i + 1}', v)
+            used = [v for v in vs if v is not None]
+            if not used:
+                return True
+            ev = Evaluator(MA)
+            return bool_is(ev.evaluate(f'Sheet1!Z{k}'), all(truth(v) for v in used)) and bool_is(ev.evaluate(f'Sheet1!Y{k}'), any(truth(v) for v in used))
+        if k == 1:
+            def h(a: TV) -> bool: return body((a,))
+        elif k == 2:
+            def h(a: TV, b: TV) -> bool: return body((a, b))
+        elif k == 3:
+            def h(a: TV, b: TV, c: TV) -> bool: return body((a, b, c))
+        else:
+            def h(a: TV, b: TV, c: TV, d: TV) -> bool: return body((a, b, c, d))
+        return h
+    for k in (1, 2, 3, 4):
+        w = [(True, 0, None, 5)[:k], (None, None, 1, False)[:k], (2, None, None, None)[:k]]
+        obs.append(Ob(f'c10.AND-OR[{k} scalars]', mk_andor(k), witness=w, timeout=900, cost=3 ** k, family='c10.AND-OR',
+                      bounds=f'{k} scalar argument(s), each over bool/int/blank (types forked, ints unbounded): conjunction / disjunction of the non-blank ones, numbers TRUE iff non-zero'))
 
     def h_andor_range1(s: TV, a: TV, b: TV, c: TV) -> bool:
         for i, v in enumerate((a, b, c)):
